@@ -83,11 +83,11 @@ static void s18(const int *d, vcase *c)
     total_corr(); int rt = 0; while (d[0] >= rout_off[rt + 1]) rt++;
     c->aux = rt; c->k = d[0] - (int)rout_off[rt];
     static const int BP[] = { 2, 1, 8 }; c->n = c->m = 5; c->pat = base_pattern(5, BP[d[1]]); c->vals = 2; c->type = d[2]; c->fact = d[3] ? 3 : 0; c->equil = d[3]; c->stor = d[4];
-    c->colperm = 3; c->nrhs = 2; c->rhs = 1; c->u = 1.0; c->permid = -1;
+    c->colperm = 3; c->nrhs = 2; c->rhs = 1; c->u = 1.0; c->permid = -1; c->aux3 = d[5];      /* aux3: which entry of R / C is corrupted (first, middle, last) */
 }
-static long sz_18(int tier) { return total_corr() * 3 * 4 * 2 * 2; }
-static void dec_18(int tier, long idx, vcase *c) { int dims[5] = { (int)total_corr(), 3, 4, 2, 2 }, dig[5]; vcase_init(c); wk_unrank(idx, dims, 5, dig); s18(dig, c); }
-static void desc_18(int tier, char *b, size_t cap) { snprintf(b, cap, "{\"families\":[{\"name\":\"(routine, single-argument corruption) table x 3 base matrices x type4 x {fresh call, pre-factored call} x storage{NC,NR}\",\"dims\":[%ld,3,4,2,2],\"size\":%ld}]}", total_corr(), total_corr() * 48); }
+static long sz_18(int tier) { return total_corr() * 3 * 4 * 2 * 2 * 3; }
+static void dec_18(int tier, long idx, vcase *c) { int dims[6] = { (int)total_corr(), 3, 4, 2, 2, 3 }, dig[6]; vcase_init(c); wk_unrank(idx, dims, 6, dig); s18(dig, c); }
+static void desc_18(int tier, char *b, size_t cap) { snprintf(b, cap, "{\"families\":[{\"name\":\"(routine, single-argument corruption) table x 3 base matrices x type4 x {fresh call, pre-factored call} x storage{NC,NR} x corrupted entry of R/C {first, middle, last}\",\"dims\":[%ld,3,4,2,2,3],\"size\":%ld}]}", total_corr(), total_corr() * 48); }
 
 typedef struct { uint64_t a, b, x, perm, scal, lu, misc; long live; } snap;
 static void take(const xs *s, snap *p, const char *ferr, const char *berr)
@@ -153,8 +153,8 @@ static void run_C18(const vcase *c, vres *r)
     else if (code >= ARG_U && code < ARG_U + M_NKINDS) corrupt_matrix(&U, code - ARG_U, T);
     else if (code == ARG_LWORK) lwork = -2;
     else if (code == ARG_EQUED) s.equed[0] = 'X';
-    else if (code == ARG_R_ZERO) T->rst(s.Rbuf, n / 2, 0.0); else if (code == ARG_R_NEG) T->rst(s.Rbuf, n - 1, -1.0);
-    else if (code == ARG_C_ZERO) T->rst(s.Cbuf, n / 2, 0.0); else if (code == ARG_C_NEG) T->rst(s.Cbuf, 0, -2.0);
+    else if (code == ARG_R_ZERO) T->rst(s.Rbuf, (int[]){ 0, n / 2, n - 1 }[c->aux3 % 3], 0.0); else if (code == ARG_R_NEG) T->rst(s.Rbuf, (int[]){ 0, n / 2, n - 1 }[c->aux3 % 3], -1.0);
+    else if (code == ARG_C_ZERO) T->rst(s.Cbuf, (int[]){ 0, n / 2, n - 1 }[c->aux3 % 3], 0.0); else if (code == ARG_C_NEG) T->rst(s.Cbuf, (int[]){ 0, n / 2, n - 1 }[c->aux3 % 3], -2.0);
     else if (code == ARG_TRANS_HI) trans = (trans_t)3; else if (code == ARG_TRANS_LO) trans = (trans_t)-1;
     else if (code == ARG_NORM) norm[0] = 'X'; else if (code == ARG_UPLO) uplo[0] = 'X'; else if (code == ARG_TRANSC) trc[0] = 'X'; else if (code == ARG_DIAG) diag[0] = 'X';
     snap before, after; take(&s, &before, ferr, berr);
